@@ -15,14 +15,14 @@ def I1_sym(S, ct):
     """C01: l in links(v)  <=>  v in ends(l)   (for vertices v and links l)"""
     def f(v, l):
         return Implies(And(ct.is_a(v, "Vertex"), ct.is_a(l, "Link")), Mem(S.links(v), l) == Mem(S.ends(l), v))
-    return Schema("I1-symmetric", (Ref, Ref), f)
+    return Schema("I1-symmetric", (Ref, Ref), f, pair_from=("_links@", "_vertices@"))
 
 
 def I1_nodup(S, ct):
     """C01: no vertex lists the same link twice"""
     def f(v, l):
         return Implies(ct.is_a(v, "Vertex"), Cnt(S.links(v), l) <= 1)
-    return Schema("I1-nodup", (Ref, Ref), f)
+    return Schema("I1-nodup", (Ref, Ref), f, pair_from=("_links@",))
 
 
 def TY_links(S, ct):
@@ -30,21 +30,21 @@ def TY_links(S, ct):
     def f(v, l):
         return And(Implies(And(ct.is_a(v, "Vertex"), Mem(S.links(v), l)), And(l != NONE, ct.is_a(l, "Link"))),
                    Implies(And(ct.is_a(l, "Link"), Mem(S.ends(l), v)), Or(v == NONE, ct.is_a(v, "Vertex"))))
-    return Schema("TY-links", (Ref, Ref), f)
+    return Schema("TY-links", (Ref, Ref), f, pair_from=("_links@", "_vertices@"))
 
 
 def I2_sym(S, ct):
     """C02: o in members(u) <=> u in unis(o)  (o a vertex, u a universe)"""
     def f(o, u):
         return Implies(And(ct.is_a(o, "Vertex"), ct.is_a(u, "Universe")), Mem(S.members(u), o) == Mem(S.unis(o), u))
-    return Schema("I2-symmetric", (Ref, Ref), f)
+    return Schema("I2-symmetric", (Ref, Ref), f, pair_from=("_universes@", "_vertices@"))
 
 
 def I2_nodup(S, ct):
     def f(o, u):
         return And(Implies(ct.is_a(u, "Universe"), Cnt(S.members(u), o) <= 1),
                    Implies(ct.is_a(o, "BaseObject"), Cnt(S.unis(o), u) <= 1))
-    return Schema("I2-nodup", (Ref, Ref), f)
+    return Schema("I2-nodup", (Ref, Ref), f, pair_from=("_universes@", "_vertices@"))
 
 
 def TY_unis(S, ct):
@@ -52,7 +52,7 @@ def TY_unis(S, ct):
     def f(o, u):
         return And(Implies(And(ct.is_a(o, "BaseObject"), Mem(S.unis(o), u)), And(u != NONE, ct.is_a(u, "Universe"))),
                    Implies(And(ct.is_a(u, "Universe"), Mem(S.members(u), o)), And(o != NONE, ct.is_a(o, "BaseObject"))))
-    return Schema("TY-unis", (Ref, Ref), f)
+    return Schema("TY-unis", (Ref, Ref), f, pair_from=("_universes@", "_vertices@"))
 
 
 def I19(S, ct):
